@@ -271,65 +271,62 @@ class SimFS:
 
 
 class TableReads:
-    """Seam around the herd-table readers (static methods of AnimalDataReader) and the
-    combined-table read. Fail-stop faults only (content is never altered)."""
-
-    NAMES = [
-        "read_animal_population_data",
-        "read_animal_nutrition_data",
-        "read_animal_options",
-        "read_animal_regional_factors",
-        "read_country_data",
-    ]
+    """Seam around the data-table reads: pandas.read_csv calls whose path lies under data/ (the five
+    herd tables read on every herd run, the combined country table). It sits at the lowest Python
+    level on purpose: a cache that the code under test might put above the parser is then filled with
+    what the (faulted) read returned. Faults: fail-stop errors, and 'truncated' = transient torn read
+    (the file was being rewritten while THIS read happened; pandas parses the first half)."""
 
     def __init__(self, log=None):
         self.log = log
         self.count = 0
-        self.plan = {}  # read index -> exception class name
+        self.by_name = {}
+        self.plan = {}  # read index -> kind   |   (basename, nth read of that file since the job started) -> kind
         self.fired = {}
+        self.job_base = {}
+
+    def start_job(self):
+        self.job_base = dict(self.by_name)
 
     def install(self):
-        m = mods()
-        self._saved = {}
+        import pandas as pd
+
         tr = self
-        for name in self.NAMES:
-            orig = getattr(m.ap.AnimalDataReader, name)
-            self._saved[name] = orig
+        self._orig = pd.read_csv
+        data_marker = os.sep + "data" + os.sep
 
-            def make(orig, name):
-                def reader(*a, **k):
-                    idx = tr.count
-                    tr.count += 1
-                    if tr.log is not None:
-                        tr.log.add("SEAM", seam="read", name=name, index=idx)
-                    f = tr.plan.get(idx)
-                    if f:
-                        tr.fired[f] = tr.fired.get(f, 0) + 1
-                        if tr.log is not None:
-                            tr.log.add("FAULT", kind="read_" + f, at=idx)
-                        if f == "truncated":
-                            # transient torn read: the table was being rewritten while THIS read happened; pandas
-                            # parses the first half without complaint. Only the job that made this read may be
-                            # wrong; every later job reads the complete file again.
-                            df = orig(*a, **k)
-                            return df.iloc[: max(1, len(df) // 2)].copy()
-                        if f == "enoent":
-                            raise FileNotFoundError(2, "simulated missing table", name)
-                        if f == "parse":
-                            import pandas as pd
+        def read_csv(path, *a, **k):
+            p = os.fspath(path) if isinstance(path, (str, os.PathLike)) else None
+            if p is None or data_marker not in os.path.realpath(p) + os.sep:
+                return tr._orig(path, *a, **k)
+            name = os.path.basename(p)
+            idx = tr.count
+            tr.count += 1
+            nth = tr.by_name.get(name, 0) - tr.job_base.get(name, 0)
+            tr.by_name[name] = tr.by_name.get(name, 0) + 1
+            if tr.log is not None:
+                tr.log.add("SEAM", seam="read", name=name, index=idx)
+            f = tr.plan.pop(idx, None) or tr.plan.pop((name, nth), None)
+            if f:
+                tr.fired[f] = tr.fired.get(f, 0) + 1
+                if tr.log is not None:
+                    tr.log.add("FAULT", kind="read_" + f, at=idx, name=name)
+                if f == "truncated":
+                    df = tr._orig(path, *a, **k)
+                    return df.iloc[: max(1, len(df) // 2)].copy()
+                if f == "enoent":
+                    raise FileNotFoundError(2, "simulated missing table", name)
+                if f == "parse":
+                    raise pd.errors.ParserError("simulated parser error in " + name)
+                raise SimFault(5, "simulated read error", name)
+            return tr._orig(path, *a, **k)
 
-                            raise pd.errors.ParserError("simulated parser error in " + name)
-                        raise SimFault(5, "simulated read error", name)
-                    return orig(*a, **k)
-
-                return reader
-
-            setattr(m.ap.AnimalDataReader, name, staticmethod(make(orig, name)))
+        pd.read_csv = read_csv
 
     def uninstall(self):
-        m = mods()
-        for name, orig in self._saved.items():
-            setattr(m.ap.AnimalDataReader, name, staticmethod(orig))
+        import pandas as pd
+
+        pd.read_csv = self._orig
 
 
 # --------------------------------------------------------------------------- solver
